@@ -56,3 +56,16 @@ Example ex_rejected_skipped :
   let st := crun [([58], 8)] (init str) (reads [[65;32;98;10;58]; [10;67;32;100;10]]) in
   dead st = None /\ delivered st = [[65;32;98]; [67;32;100]] /\ inbuffer st = [].
 Proof. vm_compute. repeat split; reflexivity. Qed.
+
+(* 300 isolated EAGAINs, each followed by a 1-byte write of a 300-byte text with
+   a multi-byte character: meets eagain_runs_ok, far more than EAGAIN_MAX in total *)
+Definition ex_iso_trace : list event :=
+  EvSend [233 :: repeat 120 298] (SErr 11) ::
+  concat (repeat [EvSend [] (Sent 1); EvSend [] (SErr 11)] 300).
+
+Example ex_eagain_runs_hyps :
+  eagain_runs_ok 0 ex_iso_trace = true /\
+  length (filter (fun ev => match ev with EvSend _ (SErr _) => true | _ => false end) ex_iso_trace) = 301%nat /\
+  connected (crun [] (init str) ex_iso_trace) = true /\
+  length (wire (crun [] (init str) ex_iso_trace)) = 300%nat.
+Proof. vm_compute. repeat split; reflexivity. Qed.
